@@ -5,10 +5,11 @@ import DriverOps.C05
 import DriverOps.C06
 import DriverOps.C09
 import DriverOps.C14
+import DriverOps.C16
 import DriverOps.C18
 import DriverOps.C19
 import DriverOps.Core
 open Lean
 namespace DriverOps
-def tables : List (String → Array Json → R (Option Json)) := [c01, c02, c03, c05, c06, c09, c14, c18, c19, core]
+def tables : List (String → Array Json → R (Option Json)) := [c01, c02, c03, c05, c06, c09, c14, c16, c18, c19, core]
 end DriverOps
